@@ -112,6 +112,21 @@ def _gen_huge(rng):
     return {"stream": "huge", "ops": ops}
 
 
+def _gen_wide(rng):
+    """a record of 255-300 columns (CPython shares int objects only up to 256: identity tests on indexes pass below
+    that width and fail above it), then the usual edits at its far end"""
+    w = rng.choice([255, 256, 257, 258, 259, 300])
+    ops = [["add", ["W%d" % i, rng.choice([None, None, i]), i]] for i in range(w)]
+    last = "W%d" % (w - 1)
+    tail = [["del", rng.choice([["str", last], ["int", w - 1], ["col", [last, None, 0]]])],
+            ["add", ["Z", None, 1]],
+            ["set", ["int", w - 1], ["Y", rng.choice([None, w - 1]), 2]],
+            ["del", ["int", w - 2]], ["del", ["str", "Z"]], ["set", ["str", "W3"], ["W3", 3, 9]],
+            ["set", ["int", w + 1], ["V", None, 3]], ["del", ["str", "V"]]]
+    rng.shuffle(tail)
+    return {"stream": "wide", "ops": ops + tail[: rng.randint(2, len(tail))]}
+
+
 def skip_compare(case):
     return case["stream"] == "huge"
 
@@ -119,7 +134,8 @@ def skip_compare(case):
 def generate(rng, n):
     out = []
     for _ in range(n):
-        c = _gen_huge(rng) if rng.random() < 0.04 else _gen_one(rng)
+        r0 = rng.random()
+        c = _gen_huge(rng) if r0 < 0.04 else (_gen_wide(rng) if r0 < 0.045 else _gen_one(rng))
         if rng.random() < 0.4:
             c["typed"] = True      # shipped column classes holding null / empty / zero values; `+=` instead of add()
         out.append(c)
@@ -138,6 +154,7 @@ def corpus():
         {"stream": "corpus", "ops": [["add", ["A", None, 1]], ["set", ["int", 0], ["B", None, 2]], ["add", ["ref", 1]],
                                      ["set", ["col", ["ref", 0]], ["slot", 0]], ["del", ["col", ["slot", 0]]], ["add", ["ref", 0]]]},
         {"stream": "huge", "ops": [["add", ["A", None, 1]], ["set", ["str", "B"], ["B", 10 ** 13, 2]], ["add", ["C", None, 3]]]},
+        {"stream": "wide", "ops": [["add", ["W%d" % i, None, i]] for i in range(258)] + [["del", ["str", "W257"]], ["add", ["Z", None, 1]]]},
         {"stream": "corpus", "ops": [["set", ["int", 3], ["A", None, 1]], ["del", ["int", 3]], ["set", ["int", 1], ["ref", 0]],
                                      ["set", ["int", 3], ["ref", 0]]]},
     ]
